@@ -9,7 +9,8 @@
    is assumed unless written), all operations and all arguments. *)
 From Coq Require Import List NArith Bool.
 From FIM Require Import Model.T8Graph Model.T8Ops Proofs.T8Frame Proofs.T8Query Proofs.T8Sound Proofs.T8SoundTop
-     Proofs.T8Complete Proofs.T8Closed Proofs.T8Top Proofs.T8Owned Proofs.T8Handles Proofs.T8Fixed Proofs.T8Witness.
+     Proofs.T8Complete Proofs.T8Closed Proofs.T8Top Proofs.T8Owned Proofs.T8Handles Proofs.T8Fixed Proofs.T8Inv
+     Proofs.T8Link Proofs.T8Prune Proofs.T8Art Proofs.T8Witness.
 Import ListNotations.
 
 (* ================= "leaves every other element, property and connection exactly as it was" ============ *)
@@ -95,6 +96,17 @@ Theorem C08_artefact_ports_deleted : forall ex o cs g r g' tr,
 Proof. exact artefact_ports_deleted. Qed.
 Print Assumptions C08_artefact_ports_deleted.
 
+(* The same WITHOUT the hypothesis on the element's own interfaces, under the well-formedness WP g (distinct ids; a
+   connection point has at most one link; a ServicePort has no neighbouring connection point; the edges at links and
+   between a service and its ports are `connects` edges): the loop's skip (fix 5286851) is harmless - a skipped
+   interface was deleted because it WAS the peering artefact of an earlier iteration, so the port across its link is
+   that earlier interface, an interface of the element itself, and goes with the element.  `wpb` decides WP. *)
+Theorem C08_artefact_ports_deleted_wf : forall ex o cs g r g' tr,
+  WP g -> run (exec ex o cs) g = (inl r, (g', tr)) ->
+  forall ii l sp, disc_ifs g o ii -> link2 g l ii sp -> type_of g sp = T_ServicePort -> In sp tr.
+Proof. exact artefact_ports_deleted_wf. Qed.
+Print Assumptions C08_artefact_ports_deleted_wf.
+
 (* unpeer of two services not joined by service - ServicePort - link - ServicePort - service (four `connects` edges
    whose inner ends are both ServicePorts) raises and deletes nothing, for every graph (refuted before fix 13b815d;
    the ServicePort condition is fix 0d94156) *)
@@ -131,6 +143,48 @@ Theorem C08_cache_independent : forall ex o cs cs' g,
   same_eff (run (exec ex o cs) g) (run (exec ex o cs') g).
 Proof. exact cache_independent. Qed.
 Print Assumptions C08_cache_independent.
+
+(* ================= links of any number of ends: the exact equation =====================================
+   The code deletes a link inside remove_cp_and_links when "exactly two interfaces connect to it" at the moment of
+   that call.  WL g: no link has two ends inside one port family (two ends next to each other, or next to a common
+   connection point).  Under WL each call takes at most one end of a given link and the order of the calls does not
+   matter.  Every operation except remove_link (which deletes the link itself) and the legacy path-based unpeer: *)
+Theorem C08_link_deleted_iff : forall ex o cs g r g' tr,
+  WL g -> liftable o = true -> run (exec ex o cs) g = (inl r, (g', tr)) ->
+  forall l, class_of g l = CLink ->
+    (In l tr <-> ((2 <= length (cpn g l))%nat /\ (length (surv tr (cpn g l)) <= 1)%nat /\
+                  exists e, In e (cpn g l) /\ In e tr)).
+Proof. exact link_deleted_iff. Qed.
+Print Assumptions C08_link_deleted_iff.
+
+(* Without WL the equation is false: G11 - a port and its sub-interface are both ends of a three-ended link; removing
+   the port takes both in ONE call after ONE test, the link stays with a single end.  (For a node with several
+   components the outcome then also depends on Python's set iteration order; the harness does not compare such
+   states with the model.) *)
+Theorem C08_link_iff_needs_WL :
+  wlb G11 = false /\
+  ok_of (run (exec false (ORemoveInterface 1 2) [[2%N]]) G11) = true /\
+  trace_of (run (exec false (ORemoveInterface 1 2) [[2%N]]) G11) = [2; 3]%N /\
+  class_of G11 4 = CLink /\ sortN (cpn G11 4) = [2; 3; 5]%N /\
+  surv (snd (snd (run (exec false (ORemoveInterface 1 2) [[2%N]]) G11))) (cpn G11 4) = [5%N].
+Proof. exact link_iff_needs_WL. Qed.
+Print Assumptions C08_link_iff_needs_WL.
+
+(* ================= prune as repaired by proposed_fixes/C08-7 (operation OPrune7) ======================
+   Selected by the harness when the running library's _prune_ns contains the node_exists guard.  Every removal step
+   skips what an earlier step already removed, services and interfaces are disconnected before the graph-level
+   removal.  ids_distinct g: node ids are distinct (add_node guarantees it). *)
+Theorem C08_prune7_targets_deleted : forall ex cs g r g' tr,
+  ids_distinct g -> run (exec ex OPrune7 cs) g = (inl r, (g', tr)) ->
+  forall x, prune_target g x -> In x tr.
+Proof. exact prune7_targets. Qed.
+Print Assumptions C08_prune7_targets_deleted.
+
+Theorem C08_prune7_owned_deleted : forall ex cs g r g' tr,
+  ids_distinct g -> run (exec ex OPrune7 cs) g = (inl r, (g', tr)) ->
+  forall x, prune_owned g x -> In x tr.
+Proof. exact prune7_owned. Qed.
+Print Assumptions C08_prune7_owned_deleted.
 
 (* ================= handles: "report the same interfaces as a freshly looked-up handle" ================ *)
 
@@ -296,3 +350,19 @@ Example C08_nonvacuous_unpeer6 :
   fst (run (exec true (OUnpeer6 1 5) [[2; 6]%N; [4; 8]%N]) G8) = inl [[2%N]; [4%N]] /\
   trace_of (run (exec true (OUnpeer6 1 5) [[2; 6]%N; [4; 8]%N]) G8) = [6; 7; 8]%N.
 Proof. exact ex_unpeer6_peered_and_connected. Qed.
+
+(* three-ended link (G10, WL holds): it survives the loss of one end and goes with the second *)
+Example C08_nonvacuous_three_end_link :
+  WL G10 /\ WL G1 /\
+  trace_of (run (exec false (ORemoveNsTopo 5) []) G10) = [2; 5]%N /\
+  trace_of (run (exec false (ORemoveNsTopo 6) []) (fst (snd (run (exec false (ORemoveNsTopo 5) []) G10)))) = [1; 3; 6]%N.
+Proof. split; [exact WL_G10|]. split; [exact WL_G1|]. exact ex_three_end_link. Qed.
+
+(* a node whose own two services peer with each other (G12): WP holds, the loop skips port 5, everything goes *)
+Example C08_nonvacuous_own_services_peer :
+  WP G12 /\ WP G1 /\ link2 G12 6 5 4 /\
+  ok_of (run (exec true (ORemoveNode 1) []) G12) = true /\
+  trace_of (run (exec true (ORemoveNode 1) []) G12) = [1; 2; 3; 4; 5; 6]%N /\
+  topo_nodes G12 1 = [1%N] /\ sortN (disc_list G12 (node_interface_list G12 1)) = [4; 5]%N /\
+  peer_cps G12 4 = [5%N] /\ type_of G12 4 = T_ServicePort.
+Proof. split; [exact WP_G12|]. split; [exact WP_G1|]. split; [exact link2_G12|]. exact ex_own_services_peer. Qed.
